@@ -1,7 +1,8 @@
 import MoneroModel.Proofs.PanicsProofs
 import MoneroModel.Proofs.TxSound3
-/-! Proofs for the transaction part of Model/Panics.lean: `1 + inputs` (usize) in `RctSigPrunable::consensus_decode` and
-`&prefix.inputs[0]` in `Transaction::consensus_decode`. Core Lean only. -/
+/-! Proofs for the transaction part of Model/Panics.lean: the MLSAG column count in `RctSigPrunable::consensus_decode`
+(`inputs.saturating_add(1)` on a usize since the fix commit; it was `1 + inputs`) and `&prefix.inputs[0]` in
+`Transaction::consensus_decode`. Core Lean only. -/
 namespace Monero.Panics
 open Monero
 
@@ -18,28 +19,51 @@ theorem mgDec_over_cap (cols mixin : Nat) (b : Bytes) (h : cols * sizes.key > CA
   unfold mgDec
   simp only [rep, bind, sizedVec_over_cap _ _ _ _ h]
 
-/-- for every `usize` value of `inputs`, section 2 is the total model's: below the maximum the saturating sum is the sum;
-at `usize::MAX` both `usize::MAX` and `2^64` columns exceed the allocation cap and the decoder refuses -/
-theorem sigsDecP_eq (ty inputs mixin : Nat) (b : Bytes) (h : inputs < 2 ^ 64) :
+/-- the operator the translator reads from the CURRENT source. If the source goes back to `1 + inputs` (`mgColsPlain = true`) or
+to another method, these two facts — and with them `C04_no_panic_prunable` / `C04_no_panic_tx` — stop being provable. -/
+theorem mgCols_src : Gen.mgColsPlain = false ∧ Gen.mgColsOp = some .saturating_add := ⟨rfl, rfl⟩
+
+theorem sat_u64 (n : Nat) : (TyU64.sat ((n : Int) + 1)).toNat = min (n + 1) (2 ^ 64 - 1) := by
+  unfold IntTy.sat
+  have hlo : TyU64.lo = 0 := rfl
+  have hhi : TyU64.hi = 2 ^ 64 - 1 := rfl
+  have h64 : (2 : Int) ^ 64 = 18446744073709551616 := by decide
+  have n64 : (2 : Nat) ^ 64 = 18446744073709551616 := by decide
+  by_cases h1 : (n : Int) + 1 < TyU64.lo
+  · rw [hlo] at h1; omega
+  · rw [if_neg h1]
+    by_cases h2 : (n : Int) + 1 > TyU64.hi
+    · rw [if_pos h2, hhi]; rw [hhi] at h2; omega
+    · rw [if_neg h2]; rw [hhi] at h2; omega
+
+/-- with the source's operator the column count never panics: it is the saturated sum -/
+theorem mgColsWith_sat (inputs : Nat) : mgColsWith false (some .saturating_add) inputs = .ok (min (inputs + 1) (2 ^ 64 - 1)) := by
+  unfold mgColsWith
+  simp only [Bool.false_eq_true, if_false, StdOp.eval]
+  rw [sat_u64]
+
+/-- for EVERY value of `inputs`, section 2 is the total model's: below the maximum the saturating sum is the sum; from
+`usize::MAX` on both the saturated count and the mathematical `1 + inputs` exceed the allocation cap and the decoder refuses -/
+theorem sigsDecP_eq (ty inputs mixin : Nat) (b : Bytes) :
     sigsDecP ty inputs mixin b = .ofOption (sigsDec ty inputs mixin b) := by
-  unfold sigsDecP
+  unfold sigsDecP sigsDecPW
   by_cases h1 : ty = 5 ∨ ty = 6
   · rw [if_pos h1]
   · rw [if_neg h1]
     by_cases h2 : ty = 2 ∨ ty = 3 ∨ ty = 4
     · rw [if_pos h2]
     · rw [if_neg h2]
+      rw [mgCols_src.1, mgCols_src.2, mgColsWith_sat, bind_ok]
       unfold sigsDec
       rw [if_neg h1]
       simp only [h2, if_false]
-      by_cases hs : inputs + 1 < 2 ^ 64
-      · have : satAddU 64 inputs 1 = 1 + inputs := by unfold satAddU; omega
+      by_cases hs : inputs + 1 ≤ 2 ^ 64 - 1
+      · have : min (inputs + 1) (2 ^ 64 - 1) = 1 + inputs := by omega
         rw [this]
-      · have e : inputs = 2 ^ 64 - 1 := by omega
-        have hk : 1 ≤ sizes.key := by decide
+      · have hk : 1 ≤ sizes.key := by decide
         have hc : CAP < 2 ^ 63 := by decide
-        have c1 : satAddU 64 inputs 1 * sizes.key > CAP := by
-          have : satAddU 64 inputs 1 = 2 ^ 64 - 1 := by unfold satAddU; omega
+        have c1 : min (inputs + 1) (2 ^ 64 - 1) * sizes.key > CAP := by
+          have : min (inputs + 1) (2 ^ 64 - 1) = 2 ^ 64 - 1 := by omega
           rw [this]
           have := Nat.le_mul_of_pos_right (2 ^ 64 - 1) hk
           omega
@@ -48,9 +72,9 @@ theorem sigsDecP_eq (ty inputs mixin : Nat) (b : Bytes) (h : inputs < 2 ^ 64) :
           omega
         simp only [rep, bind, mgDec_over_cap _ _ _ c1, mgDec_over_cap _ _ _ c2]
 
-theorem prunableP_eq (ty inputs outputs mixin : Nat) (b : Bytes) (h : inputs < 2 ^ 64) :
+theorem prunableP_eq (ty inputs outputs mixin : Nat) (b : Bytes) :
     prunableP ty inputs outputs mixin b = .ofOption (prunable ty inputs outputs mixin b) := by
-  unfold prunableP prunable
+  unfold prunableP prunablePW prunable
   by_cases h0 : ty = 0
   · rw [if_pos h0, if_pos h0]; rfl
   · rw [if_neg h0, if_neg h0]
@@ -60,7 +84,9 @@ theorem prunableP_eq (ty inputs outputs mixin : Nat) (b : Bytes) (h : inputs < 2
     | some v =>
       obtain ⟨⟨rs, bps, bpps⟩, r1⟩ := v
       simp only [ofOption_some, bind_ok]
-      rw [sigsDecP_eq _ _ _ _ h]
+      have := sigsDecP_eq ty inputs mixin r1
+      unfold sigsDecP at this
+      rw [this]
       cases hs : sigsDec ty inputs mixin r1 with
       | none => rfl
       | some w =>
@@ -75,9 +101,18 @@ theorem prunableP_eq (ty inputs outputs mixin : Nat) (b : Bytes) (h : inputs < 2
 /-- at `inputs = usize::MAX` (type Full, no outputs, empty reader: the call that overflowed before the fix) the decoder now
 refuses: the saturated column count exceeds the allocation cap -/
 theorem prunableP_at_max : (prunableP 1 (2 ^ 64 - 1) 0 0 []).isPanic = false ∧ (prunableP 1 (2 ^ 64 - 1) 0 0 []).toOption = none := by
-  rw [prunableP_eq 1 (2 ^ 64 - 1) 0 0 [] (by omega)]
+  rw [prunableP_eq 1 (2 ^ 64 - 1) 0 0 []]
   have : prunable 1 (2 ^ 64 - 1) 0 0 [] = none := by decide
   rw [this]; exact ⟨rfl, rfl⟩
+
+/-- the SAME decoder with the bare `1 + inputs` (what the source had before the fix commit) panics at that point: the site is
+real, and it is the operator read from the source that keeps it unreachable -/
+theorem prunablePW_plain_panics : (prunablePW true none 1 (2 ^ 64 - 1) 0 0 []).isPanic = true := by decide
+/-- … and a wrapping sum would not panic but decode zero columns where the mathematical count is `2^64` (accepts what the total
+model refuses) -/
+theorem prunablePW_wrapping_differs :
+    (prunablePW false (some .wrapping_add) 1 (2 ^ 64 - 1) 0 0 (List.replicate 32 0)).toOption.isSome = true ∧
+    (prunable 1 (2 ^ 64 - 1) 0 0 (List.replicate 32 0)).isSome = false := by decide
 
 theorem mixin_guarded (ins : List TxIn) : (if ins.length > 0 then mixinAtP ins else .ok 0) = mixinP ins := by
   cases ins with
@@ -135,7 +170,7 @@ theorem txP_eq (b : Bytes) : txP b = .ofOption (tx b) := by
             cases hh : p.ins.head? with
             | none =>
               simp only [bind_ok]
-              rw [prunableP_eq _ _ _ _ _ (by omega)]
+              rw [prunableP_eq]
               cases hq : prunable bs.ty p.ins.length p.outs.length 0 r1 with
               | none => simp only [Monero.bind, hq]; rfl
               | some u => obtain ⟨pr, r2⟩ := u; simp only [Monero.bind, hq]; rfl
@@ -143,7 +178,7 @@ theorem txP_eq (b : Bytes) : txP b = .ofOption (tx b) := by
               cases i0 with
               | gen g =>
                 simp only [bind_ok]
-                rw [prunableP_eq _ _ _ _ _ (by omega)]
+                rw [prunableP_eq]
                 cases hq : prunable bs.ty p.ins.length p.outs.length 0 r1 with
                 | none => simp only [Monero.bind, hq]; rfl
                 | some u => obtain ⟨pr, r2⟩ := u; simp only [Monero.bind, hq]; rfl
@@ -152,7 +187,7 @@ theorem txP_eq (b : Bytes) : txP b = .ofOption (tx b) := by
                 by_cases ho : o.length = 0
                 · rw [if_pos ho, if_pos ho]; rfl
                 · rw [if_neg ho, if_neg ho, bind_ok]
-                  rw [prunableP_eq _ _ _ _ _ (by omega)]
+                  rw [prunableP_eq]
                   cases hq : prunable bs.ty p.ins.length p.outs.length (o.length - 1) r1 with
                   | none => simp only [Monero.bind, hq]; rfl
                   | some u => obtain ⟨pr, r2⟩ := u; simp only [Monero.bind, hq]; rfl
